@@ -60,6 +60,21 @@ def canonicalise(ts):
                 _rename(N, am, a.target.name, "cmp")
 
 
+UNION_TEST = "(type.inner_type is UnionType)"
+
+
+def _union_split(N, n):
+    """(struct branch, union branch) of an If that tests `type.inner_type is UnionType` in either polarity, else None"""
+    if not isinstance(n, N.If) or n.elif_:
+        return None
+    t, pol = n.test, True
+    while isinstance(t, N.Not):
+        t, pol = t.node, not pol
+    if xs(t) != UNION_TEST:
+        return None
+    return (n.else_, n.body) if pol else (n.body, n.else_)
+
+
 def _parse(path, what):
     import re
     txt = textwrap.dedent(path.text.replace("\t", "    "))
@@ -230,17 +245,14 @@ def rule_validate(ctx, ts):
 
     # __init__ routes through setters
     init_if = None
-    for n in m.body:
-        if isinstance(n, N.If) and xs(n.test) == "(not (type.inner_type is UnionType))" and init_if is None:
-            init_if = n
     if init_if is None:
         for n in m.find_all(N.If):
-            if xs(n.test) == "(not (type.inner_type is UnionType))" and any("_init_cnt_" in d.data for d in n.find_all(N.TemplateData)):
+            if _union_split(N, n) is not None and any("_init_cnt_" in d.data for d in n.find_all(N.TemplateData)):
                 init_if = n
     if init_if is None:
         raise AnalysisError("anchor missing: field initialisation block of __init__")
     k = 0
-    for lp in init_if.body:
+    for lp in _union_split(N, init_if)[0]:
         if isinstance(lp, N.For) and any(isinstance(x, N.If) for x in lp.body):
             for p in j2text.render_paths(N, lp.body):
                 k += 1
@@ -303,14 +315,15 @@ def rule_union(ctx, ts):
     # __init__ of unions
     init_if = None
     for n in m.find_all(N.If):
-        if xs(n.test) == "(not (type.inner_type is UnionType))" and any("_init_cnt_" in d.data for d in n.find_all(N.TemplateData)):
+        if _union_split(N, n) is not None and any("_init_cnt_" in d.data for d in n.find_all(N.TemplateData)):
             init_if = n
     if init_if is None:
         raise AnalysisError("anchor missing: union branch of __init__")
-    cnt_loops = [x for x in init_if.else_ if isinstance(x, N.For) and any("_init_cnt_ += 1" in d.data for d in x.find_all(N.TemplateData))]
+    union_branch = _union_split(N, init_if)[1]
+    cnt_loops = [x for x in union_branch if isinstance(x, N.For) and any("_init_cnt_ += 1" in d.data for d in x.find_all(N.TemplateData))]
     ok = len(cnt_loops) == 1 and xs(cnt_loops[0].iter) == "type.fields" and cnt_loops[0].test is None
     ctx.ob(R, t.rel, "union __init__: every option is counted (unfiltered loop over type.fields)", ok, "", init_if.lineno)
-    paths = j2text.render_paths(N, init_if.else_)
+    paths = j2text.render_paths(N, union_branch)
     n = 0
     for p in paths:
         n += 1
